@@ -1183,7 +1183,7 @@ def same(a, b) -> bool:
 
 class C03(C02):
     prop = "C03"
-    props_modules = ["Utv.Props.C03", "Utv.Lemmas.C03Copy"]
+    props_modules = ["Utv.Props.C03", "Utv.Lemmas.C03Copy", "Utv.Lemmas.C03Join"]
     impl = "harness.c03:impl"
     lax_mode = True
     decl_share = 0.0
